@@ -158,3 +158,46 @@ def kf_colon_first_segment(f):
         # the scheme taken from the path is lower-cased by the re-parse
         return obs["reparsed"].lower() == obs["str"].lower() or obs["reparsed"].startswith(m.group(1).lower() + ":")
     return False
+
+
+def _multidict_620_update(old, new):
+    """MultiDict.update as implemented by multidict 6.2.0 (positions recorded before the tail-dropping pass are not
+    adjusted after a deletion, so a stale duplicate of a later key survives)"""
+    items = [tuple(p) for p in old]
+    used = {}
+    for k, v in new:
+        start = used.get(k, 0)
+        for i in range(start, len(items)):
+            if items[i][0] == k:
+                used[k] = i + 1
+                items[i] = (k, v)
+                break
+        else:
+            items.append((k, v))
+            used[k] = len(items)
+    i = 0
+    while i < len(items):
+        pos = used.get(items[i][0])
+        if pos is None:
+            i += 1
+        elif i >= pos:
+            del items[i]
+        else:
+            i += 1
+    return items
+
+
+@recogniser("KF-MULTIDICT-UPDATE-TAILS", "C12")
+def kf_multidict_update(f):
+    """update_query relies on MultiDict.update of the installed multidict 6.2.0, whose tail-dropping pass leaves stale duplicates"""
+    if f["clause"] != "update_query: values of a replaced key are not the argument's values":
+        return False
+    obs = f["observed"]
+    got = [tuple(p) for p in obs["got"]]
+    old = [tuple(p) for p in obs["old"]]
+    new = [tuple(p) for p in obs["new"]]
+    keys = {k for k, _ in new}
+    correct = [p for p in old if p[0] not in keys]
+    buggy = _multidict_620_update(old, new)
+    dup_old = len({k for k, _ in old if k in keys}) >= 2 and any(sum(1 for kk, _ in old if kk == k) > 1 for k in keys)
+    return dup_old and got == buggy and [p for p in got if p[0] not in keys] == correct
